@@ -10,7 +10,8 @@ EXPLANATION = (
     "execution (hit or miss); (R3) every successful return of Planner::plan_filter passes through a FilterOperator "
     "built from the filter's own predicate (residual filter on top of index / range access paths) or through the "
     "zone-map EmptyOperator short-cut; (R4) candidate lists taken from index / range / label lookups in the planner are "
-    "re-checked against the session snapshot. Row equality across strategies in general is not decided.")
+    "re-checked against the session snapshot. (R7) a zone-map predicate answers no-match only where the comparison with the bound produced a definite order. "
+    "Row equality across strategies in general is not decided.")
 ASSUMPTIONS = ["compression / zone-map maintenance calls on PropertyStorage do not change property values"]
 
 L = common.LPG
